@@ -43,6 +43,18 @@ CHECKS = {
         technique=DST + "seeded address-string histories over the simulated socket namespace, outcome-class model",
         note="Trusted: simulated namespace (EADDRINUSE / ECONNREFUSED / unknown-network behaviour of net.Listen), testing/synctest. Not covered by this leg: os.Remove of stale sockets, SetUnlinkOnClose, the *net.UnixListener assertion and NewConnection's net.Dialer (real-kernel objects without a seam).",
         ref="DESIGN.md §4 C19"),
+    "C02": dict(
+        text="Real Connection clients and a real Service exchange generated JSON (strings with NUL, quotes, control and non-BMP characters, nesting to depth 200, frames larger than bufio's buffer and the pipe capacity; up to MiB in the thorough tier) over the simulated stream and over the real PipeCon on simulated stdio pipes, under per-run segmentation / coalescing / short-read / latency / tiny-capacity policies. Oracle: both wire taps cut at NUL are non-empty JSON objects, the stream ends with NUL, message counts equal the model's, and what each side decodes equals what the other sent whatever the segmentation (C01/C10 add raw byte-at-a-time client streams against the same model).",
+        technique=DST + "wire tap of the simulated transport + adversarial segmentation, framing oracle on both directions",
+        ref="DESIGN.md §4 C02"),
+    "C03": dict(
+        text="Generated JSON objects (integers beyond 2^53, -0, exponents, long fractions, empty objects, null members, unicode keys, deep and large values) as call and reply parameters, more-sequences of 0..20 replies, Send+receive and Call, over the simulated stream (standing for unix / abstract / tcp, which differ only in the kernel object behind net.Conn) and the real PipeCon with an in-simulation bridge relay. Oracle: handler-side raw parameters and client-side received raw parameters are JSON-equal to what was passed, numbers compared as lexemes; continues set on all replies but the last. The schedule dimension adds little; strength is the independent model with both real endpoints in the loop.",
+        technique=DST + "both real endpoints over the simulated transport, lexeme-exact JSON equality oracle",
+        ref="DESIGN.md §4 C03"),
+    "C12": dict(
+        text="Handler error names from a grammar (dots anywhere, empty parts, unicode, org.varlink.service.X, .X.Y, near misses) with generated parameters, and the four built-in helpers with arbitrary strings, both ends real. Oracle: sendable iff non-empty interface part that is not exactly org.varlink.service; sendable -> client gets *varlink.Error with exactly that name and JSON-equal parameters; otherwise the handler got an error and nothing was written; built-ins arrive as their typed errors carrying the value the service put in.",
+        technique=DST + "both real endpoints over the simulated transport, error-namespace reference predicate",
+        ref="DESIGN.md §4 C12"),
 }
 
 NA = {
@@ -54,7 +66,7 @@ NA = {
     "C20": "pure function of process-global OS state (environment, pid, inherited fd table) with no seam; a finite configuration product to enumerate in subprocesses, not simulation (DESIGN.md §5)",
 }
 
-PENDING = {'C02': 'simulation-decidable (DESIGN.md §4) but its check is not built yet at this commit; not claimed until it is', 'C03': 'simulation-decidable (DESIGN.md §4) but its check is not built yet at this commit; not claimed until it is', 'C11': 'simulation-decidable (DESIGN.md §4) but its check is not built yet at this commit; not claimed until it is', 'C12': 'simulation-decidable (DESIGN.md §4) but its check is not built yet at this commit; not claimed until it is', 'C13': 'simulation-decidable (DESIGN.md §4) but its check is not built yet at this commit; not claimed until it is'}
+PENDING = {'C11': 'simulation-decidable (DESIGN.md §4) but its check is not built yet at this commit; not claimed until it is', 'C13': 'simulation-decidable (DESIGN.md §4) but its check is not built yet at this commit; not claimed until it is'}
 
 def main():
     checks = []
